@@ -52,6 +52,5 @@ func Verif_C02_P6_AtomicStateFile() {
 	vnd.Observe("p6", uint64(d.ops), uint64(len(d.written)))
 }
 
-
 // Verif_C02_P6b_StateFileRoundTrip: see verifScenarioStateFileRoundTrip.
 func Verif_C02_P6b_StateFileRoundTrip() { verifScenarioStateFileRoundTrip() }
